@@ -6,7 +6,7 @@
    sequence with every combination of write / reload / Plus-API failures.  Model: C12/Model.v;
    declarative specifications: C12/Spec.v; tie to the Go code: C12/Check.v + the harness. *)
 From Coq Require Import List ZArith String Bool Sorted.
-From NGF Require Import C12.Model C12.Spec C12.Proofs.
+From NGF Require Import C12.Model C12.Spec C12.Proofs C12.Compose.
 Import ListNotations.
 Local Open Scope Z_scope.
 
@@ -97,3 +97,16 @@ Theorem C12_system_truth :
     Forall (fun p => forall v, ho_status (fst p) = Some false -> ho_reloaded (fst p) = Some v ->
                                ng_loaded (snd p) = v) outs.
 Proof. intros plus ng0 sbs outs H H1 H2. exact (system_truth_gen plus hinit ng0 sbs outs H H1 H2). Qed.
+
+(* With the file manager of C11 as the write stage (the flag of the batch is what the replacement of the generated file set answers,
+   after ANY history of earlier replacements, faults, crashes and restarts): statuses without the failure mark after a reload mean
+   that the reload verified the version that was written and that the managed folders hold exactly the generated file set. *)
+Theorem C12_unmarked_statuses_mean_files_on_disk :
+  forall plus s b (w : F.world) (d0 : F.disk) (h : list F.event) (fs : list F.file) (os : list F.outcome),
+    let fm := F.run true w (F.boot d0) h in
+    write_stage_is w fm fs os b ->
+    ho_status (snd (hstep plus s b)) = Some false ->
+    forall v, ho_reloaded (snd (hstep plus s b)) = Some v ->
+      ho_written (snd (hstep plus s b)) = Some v /\
+      F.exactly w (F.disk_of fm) (F.disk_of (fst (F.step true w fm (F.Replace fs os)))) fs.
+Proof. exact unmarked_statuses_mean_files_on_disk. Qed.
